@@ -111,7 +111,7 @@ def correspondence(ctx):
                     ans = "raises:" + type(e).__name__
             c.add("space.apply %s | %d %d | %d | %s | %s" % (head, a, b, nm, cs, " ".join(map(str, rec.tape))), ans, branch="apply:frozen")
         if loc.multichoices:
-            nm = rng.choice([1, 1, 2, 2, 3, 5])
+            nm = rng.choice([0, 1, 1, 2, 2, 3, 5])
             with Recorder() as rec:
                 r = loc.apply_random_mutations(nm, cs)
             c.add("space.apply %s | %d %d | %d | %s | %s" % (head, a, b, nm, cs, " ".join(map(str, rec.tape))),
@@ -250,7 +250,7 @@ def oracle_problem(rng, seq, descs, out):
                             detail="%s on a space with no multi-variant choice (min(n, 0) = 0 choices must change)" % r))
         n_checks += 1
     if loc.multichoices:
-        nm = rng.randint(1, 4)
+        nm = rng.randint(0, 4)
         r = loc.apply_random_mutations(nm, cs)
         changed = [ch for ch in loc.multichoices if r[ch.start:ch.end] != cs[ch.start:ch.end]]
         ok = len(changed) == min(nm, len(loc.multichoices)) and in_space(space, r) and len(r) == n
